@@ -250,6 +250,10 @@ class Builder:
             self.partners(a, b, self.rng.random() < 0.8, True)
 
     def t_coparents_not_partners(self):
+        # NOT part of TEMPLATES: two parents of a common child who live in one household
+        # without being partners are *invalid* input for GETTSIM's maintainers (fixture
+        # groupings/2023/skip_eltern_nicht_einstandspflichtig_ein_haushalt.yaml expects an
+        # error: "Eltern im selben Haushalt, aber nicht füreinander einstandspflichtig").
         hh = self.new_hh()
         a, b = self.adult(hh, 25, 50), self.adult(hh, 25, 50)
         for _ in range(self.rng.randint(1, 2)):
@@ -273,7 +277,7 @@ class Builder:
 
     TEMPLATES = [
         "t_single", "t_couple", "t_single_parent", "t_family", "t_patchwork", "t_child_with_partner",
-        "t_three_generations", "t_adult_child", "t_pensioners", "t_coparents_not_partners",
+        "t_three_generations", "t_adult_child", "t_pensioners",
         "t_parent_elsewhere", "t_married_apart",
     ]
 
